@@ -1304,11 +1304,30 @@ def _s_is_empty(it, p, fid, fn, t, args):
     return ("fork", [(TRUE, (tag, ("value", 1))), (FALSE, (tag, ("value", 0)))])
 
 
+def _pattern(it, p, v):
+    """A str::contains / starts_with pattern: ('str', s) | ('chars', 'abc') | None."""
+    n = 0
+    while isinstance(v, Ptr) and n < 8:
+        v = it.deref(p, v)
+        n += 1
+    if isinstance(v, Tup) and v.fields and all(isinstance(x, Int) and x.ty == "char" for x in v.fields):
+        return ("chars", "".join(chr(x.v) for x in v.fields))
+    if isinstance(v, Int) and v.ty == "char":
+        return ("chars", chr(v.v))
+    e = sexpr(it, p, v)
+    if e is not None and e[0] == "lit":
+        return ("str", e[1])
+    return None
+
+
 def _s_contains(it, p, fid, fn, t, args):
     e = sexpr(it, p, args[0])
     pat = sexpr(it, p, args[1])
-    tag = "contains(%r,%r)" % (e, pat)
+    pd = _pattern(it, p, args[1])
     p.events.append(("test-contains", e, pat))
+    if e is not None and e[0] == "lit" and pd is not None:
+        return mkbool((pd[1] in e[1]) if pd[0] == "str" else any(c in e[1] for c in pd[1]))
+    tag = ("contains", e, pd) if (e is not None and pd is not None) else "contains(%r,%r)" % (e, pat)
     return ("fork", [(TRUE, (tag, ("value", 1))), (FALSE, (tag, ("value", 0)))])
 
 
